@@ -124,6 +124,9 @@ class H:
         self.pending = {}            # tok -> record
         self.cm = None
         self.it = None
+        self.job = None
+        self.job_result = None
+        self.job_done = anyio.Event()
 
 
 class Env:
@@ -182,7 +185,18 @@ class Env:
             async with h.ctx:
                 h.ctx.add_teardown_callback(gate_cb)
                 h.entered.set()
-                await h.leave.wait()
+                while True:
+                    await h.leave.wait()
+                    if h.job is None:
+                        break
+                    # run something inside this context's own task (current_context() is h.ctx)
+                    h.leave = anyio.Event()
+                    job, h.job = h.job, None
+                    try:
+                        h.job_result = ("ok", await job())
+                    except BaseException as e:  # noqa
+                        h.job_result = ("exc", e)
+                    h.job_done.set()
                 if h.leave_exc is not None:
                     raise h.leave_exc
         except BaseException as e:  # noqa
@@ -468,7 +482,8 @@ class Env:
             types = list(ftypes) if r.random() < 0.6 else [rec["key"][0]]
             v = self.next_static
             self.next_static += 1
-            return {"op": "AddResource", "c": x.idx, "v": v, "vty": types[0], "name": fname, "types": types,
+            vty = next((t_ for t_ in types if t_ < N_CLASSES), r.randrange(N_CLASSES))
+            return {"op": "AddResource", "c": x.idx, "v": v, "vty": vty, "name": fname, "types": types,
                     "single": False, "desc": None, "cb": None}
         pend = self.completable()
         if pend and r.random() < 0.25:
@@ -608,4 +623,5 @@ def main():
     print("@@" + json.dumps({"results": res}))
 
 
-main()
+if __name__ == "__main__":
+    main()
